@@ -882,6 +882,108 @@ def fold_input_predicates(repo: Repo) -> dict | None:
         return None
 
 
+def fold_union_proxies(repo: Repo) -> dict | None:
+    """Union._proxify and UnionProxy.__setattr__ on a model union value: after proxifying, every structure-typed member at any depth - the
+    anonymous member included - is a proxy that names the top-level member it belongs to; assigning through a proxy sets the attribute on the
+    proxy's own target, rebuilds the union through that top-level member, and writes nothing else on the union."""
+    px = repo.func_opt("types/structure.py", "Union._proxify")
+    ps = repo.func_opt("types/structure.py", "UnionProxy.__setattr__")
+    if px is None or ps is None:
+        return None
+    out: dict = {"cases": 0, "bad": []}
+    struct_cls = Sym("class:Structure")
+    made: list = []
+
+    def tsym(name, is_struct, fields=None):
+        t = Sym(f"type:{name}", {"__name__": name, "is_struct": is_struct})
+        if fields is not None:
+            t.attrs["__fields__"] = [Sym(f"field:{name}.{n}", {"_name": n, "name": None if n.startswith("__anon") else n, "type": ft}) for n, ft in fields]
+            folded = {}
+            for f in t.attrs["__fields__"]:
+                if f.attrs["name"] is None and f.attrs["type"].attrs.get("is_struct"):
+                    folded.update(f.attrs["type"].attrs["fields"])
+                else:
+                    folded[f.attrs["_name"]] = f
+            t.attrs["fields"] = folded
+            t.attrs["lookup"] = {f.attrs["_name"]: f for f in t.attrs["__fields__"]}
+        return t
+
+    u8 = tsym("uint8", False)
+    origin_t = tsym("origin", True, [("x", u8), ("y", u8)])
+    hdr_t = tsym("hdr", True, [("kind", u8), ("origin", origin_t)])
+    anon_t = tsym("__anonymous_0__", True, [("lo", u8), ("hi", u8)])
+    union_t = tsym("U", True, [("__anonymous_0__", anon_t), ("hdr", hdr_t), ("word", u8)])
+
+    def value(t, **attrs):
+        v = Sym(f"value:{t.attrs['__name__']}", {"__class__": t, **attrs})
+        v.strict = False
+        return v
+
+    def issub(t, k):
+        if k is struct_cls or (isinstance(k, tuple) and struct_cls in k):
+            return isinstance(t, Sym) and bool(t.attrs.get("is_struct"))
+        raise Refused("issubclass against an unknown class")
+
+    def getattr_(o, n, *d):
+        if isinstance(o, Sym) and n in o.attrs:
+            return o.attrs[n]
+        if d:
+            return d[0]
+        raise AttributeError(n)
+
+    def proxy(union, attr, target):
+        p_ = Sym(f"proxy#{len(made)}", {"__union__": union, "__attr__": attr, "__target__": target})
+        made.append(p_)
+        return p_
+
+    try:
+        origin = value(origin_t, x=1, y=2)
+        hdr = value(hdr_t, kind=3, origin=origin)
+        anon = value(anon_t, lo=4, hi=5)
+        u = value(union_t, **{"__anonymous_0__": anon, "hdr": hdr, "word": 9, "lo": 4, "hi": 5})
+        env = {"issubclass": Host(issub), "Structure": struct_cls, "getattr": Host(getattr_), "UnionProxy": Host(proxy),
+               "object": Sym("object", {}, {"__setattr__": Host(lambda o, n, v: o.attrs.__setitem__(n, v))}), "isinstance": Host(lambda o, k: False)}
+        for q, f in repo.module("types/structure.py").functions.items():
+            if "." not in q and q not in env:
+                env[q] = UserFunc(f.node, env)
+        Evaluator(env, steps=4000).call_user(UserFunc(px.node, env), [u], {})
+        out["cases"] += 1
+
+        def is_proxy(v, attr, target):
+            return isinstance(v, Sym) and v.label.startswith("proxy#") and v.attrs["__union__"] is u and v.attrs["__attr__"] == attr and v.attrs["__target__"] is target
+
+        for holder, name, attr, target in ((u, "__anonymous_0__", "__anonymous_0__", anon), (u, "hdr", "hdr", hdr), (hdr, "origin", "hdr", origin)):
+            if not is_proxy(holder.attrs.get(name), attr, target):
+                got = holder.attrs.get(name)
+                out["bad"].append(("proxify", f"member '{name}' of {holder.label}", f"{got.label if isinstance(got, Sym) else got!r}"
+                                   + (f" (union member '{got.attrs.get('__attr__')}')" if isinstance(got, Sym) and got.label.startswith("proxy#") else ""),
+                                   f"a proxy for the union member '{attr}'"))
+        if isinstance(u.attrs.get("word"), Sym) or isinstance(u.attrs.get("lo"), Sym):
+            out["bad"].append(("proxify", "scalar members", "wrapped in a proxy", "left as they are"))
+        # assignment through the proxy of a structure nested two levels deep
+        log: list = []
+        u2 = Sym("union", {"hdr": "<the union's hdr member>"}, {"_rebuild": Host(lambda a: log.append(("rebuild", a)))})
+        u2.strict = False
+        tgt = Sym("target:origin", {"y": 2})
+        pr = Sym("proxy", {"__union__": u2, "__attr__": "hdr", "__target__": tgt})
+        env2 = {"setattr": Host(lambda o, n, v: o.attrs.__setitem__(n, v)), "getattr": Host(getattr_),
+                "object": Sym("object", {}, {"__setattr__": Host(lambda o, n, v: (log.append(("store", o.label, n)), o.attrs.__setitem__(n, v))[0])})}
+        Evaluator(env2, steps=1000).call_user(UserFunc(ps.node, env2), [pr, "y", 9], {})
+        out["cases"] += 1
+        if tgt.attrs.get("y") != 9 or [e for e in log if e[0] == "rebuild"] != [("rebuild", "hdr")] or u2.attrs.get("hdr") != "<the union's hdr member>" or \
+                any(e[0] == "store" and e[1] == "union" for e in log):
+            out["bad"].append(("assignment through a proxy", "origin.y = 9 (two levels inside member 'hdr')", f"target {tgt.attrs}, log {log}, union.hdr {u2.attrs.get('hdr')!r}",
+                               "the target's attribute set, one rebuild through 'hdr', the union's own member untouched"))
+        return out
+    except Refused:
+        return None
+    except Raised as e:
+        out["bad"].append(("proxies", "model union", f"raised {e}", "no error"))
+        return out
+    except (TypeError, KeyError, IndexError, ValueError, AttributeError):
+        return None
+
+
 def fold_len(repo: Repo) -> dict | None:
     """MetaType.__len__: the size for a fixed-size type, TypeError for a dynamic one."""
     fi = repo.func("types/base.py", "MetaType.__len__")
